@@ -283,8 +283,21 @@ def main():
     # every summation index of a result occurs at most twice per term (counted
     # with exponents): factors that wrongly share contracted indices show up as 4
     tset = set(tgl or [])
+    from sympy import Mul as _Mul, Pow as _Pow, Add as _Add
     for t_ in tm.terms_of(E.sympy.expand()):
-        cnt = tm.count_indices(t_)
+        # orbital-energy denominators / brackets repeat the indices of the
+        # tensors by design: only the tensor and operator factors are counted
+        oe = names.get('orb_energy', 'e')
+
+        def is_energy(f_):
+            b_ = f_.args[0] if isinstance(f_, _Pow) else f_
+            return getattr(b_, 'name', None) == oe and \
+                len(getattr(b_, 'indices', ())) == 1
+        facs = [f_ for f_ in (t_.args if isinstance(t_, _Mul) else (t_,))
+                if not (isinstance(f_, _Add) or is_energy(f_) or (
+                    isinstance(f_, _Pow) and (isinstance(f_.args[0], _Add)
+                                              or f_.args[1].is_negative)))]
+        cnt = tm.count_indices(_Mul(*facs)) if facs else {}
         bad = [s_ for s_, n_ in cnt.items() if n_ > 2 and s_ not in tset]
         if bad:
             clash.append(f'result of {request}: index {bad[0]} occurs '
